@@ -159,7 +159,12 @@ class Sess:
                     # had the mailbox selected
                     st["new_msg_first_flags"] += 1
                     if "\\Recent" not in fl:
-                        w.viol(["C13"], "new-message-announced-without-recent", f"{self.name}: {r.raw[:100]!r}")
+                        if self.selected in getattr(w, "fault_boxes", ()):
+                            # an injected write fault interrupted the resync that was announcing a delivery to this mailbox: the
+                            # property does not say what the announcement looks like then (no fault is part of it) -- not judged
+                            st["recent_not_judged_after_injected_fault"] += 1
+                        else:
+                            w.viol(["C13"], "new-message-announced-without-recent", f"{self.name}: {r.raw[:100]!r}")
                 cell[1] = fl
 
     def uids_known(self):
@@ -1073,6 +1078,10 @@ class World:
             fired = disarm_failpoint()
         self.note(f"external: the server's rewrite of {name}/.mh_sequences failed once (ENOSPC)" if fired else "external: (armed write fault not reached)")
         self.stats["write_fault_delivered" if fired else "write_fault_not_reached"] += 1
+        if fired:
+            if not hasattr(self, "fault_boxes"):
+                self.fault_boxes = set()
+            self.fault_boxes.add(name)
         await self.rig.advance(self.rnd.choice([6, 21]))
         for s2 in self.sessions:
             s2.s.pump()
